@@ -12,7 +12,7 @@ from harness.framework import MachineryError
 BINOPS = ["|", "^", "&", "<<", ">>", "+", "-", "*", "/", "%"]
 PREC = {"|": 0, "^": 1, "&": 2, "<<": 3, ">>": 3, "+": 4, "-": 4, "*": 5, "/": 5, "%": 5}
 IDENTS = ["a", "b", "K", "u", "_x1", "len", "U2"]
-SIZES = {"uint16": 2, "uint8": 1, "int64": 8, "S": 6}
+SIZES = {"uint16": 2, "uint8": 1, "int64": 8, "S": 6, "unsigned int": 4, "unsigned long long": 8, "signed char": 1}
 
 
 def spell(n, rnd):
@@ -44,7 +44,11 @@ def render(t, rnd=None, ctx=0, redundant=False):
     if t.k == "id":
         return t.name
     if t.k == "sizeof":
-        return f"sizeof({t.name})"
+        if not rnd:
+            return f"sizeof({t.name})"
+        # a type name may have several words; blanks around and between them are free
+        gap = lambda: rnd.choice(["", "", " ", "\t"])   # noqa: E731
+        return "sizeof" + gap() + "(" + gap() + rnd.choice([" ", "  ", "\t"]).join(t.name.split(" ")) + gap() + ")"
     if t.k == "un":
         return t.o + (sp() if rnd and rnd.random() < 0.2 else "") + render(t.e, rnd, 6, redundant)
     p = PREC[t.o]
@@ -176,7 +180,7 @@ class ExprCheck:
         ctx1 = {"a": 5, "u": 3, "b": 2, "_x1": 9, "U2": 1}
         ctx2 = {"a": 1, "b": 6, "_x1": 0, "U2": 4}
         leaves = [Node("lit", n=1), Node("lit", n=2), Node("lit", n=3), Node("id", name="a"), Node("id", name="K"),
-                  Node("id", name="u"), Node("sizeof", name="uint16")]
+                  Node("id", name="u"), Node("sizeof", name="uint16"), Node("sizeof", name="unsigned int")]
         recs = []
         for n in (0, 1):
             for t in trees(n, leaves):
